@@ -34,6 +34,7 @@ type Engine struct {
 	monSorts  map[string]string // monitor ghost name -> sort
 	monIface  map[string]string // monitor ghost name -> interface short name
 	monMode   map[string]string // monitor ghost name -> mode it is defined for
+	monLib    map[string]string // monitor ghost name -> spec library that defines it (active only in VCs using that library)
 	ifaceByShort map[string]types.Type
 	specCache map[string]string
 	modPath   string
@@ -45,7 +46,7 @@ func loadEngine(repo, verif string) (*Engine, error) {
 	eng := &Engine{repo: repo, verif: verif, spkgs: map[string]*ssa.Package{}, funcs: map[string]*ssa.Function{},
 		effects: map[*ssa.Function]*Effects{}, candCache: map[string][]*ssa.Function{}, fnIDs: map[string]int{},
 		tidIDs: map[string]int{}, tidNames: map[int]string{}, monSorts: map[string]string{}, monIface: map[string]string{},
-		ifaceByShort: map[string]types.Type{}, specCache: map[string]string{}, monMode: map[string]string{}}
+		ifaceByShort: map[string]types.Type{}, specCache: map[string]string{}, monMode: map[string]string{}, monLib: map[string]string{}}
 	eng.modPath = modulePath(repo)
 	cfg := &packages.Config{Mode: packages.LoadAllSyntax, Dir: repo, BuildFlags: []string{"-tags=verif"}, Tests: false,
 		Env: append(os.Environ(), "GOFLAGS=-mod=mod", "GOPROXY=off", "GOSUMDB=off", "GOTOOLCHAIN=local")}
@@ -175,6 +176,7 @@ func (eng *Engine) loadMonitors() {
 					eng.monSorts[fs[0]] = fs[2]
 					eng.monIface[fs[0]] = fs[1]
 					eng.monMode[fs[0]] = filepath.Base(filepath.Dir(f))
+					eng.monLib[fs[0]] = strings.TrimSuffix(filepath.Base(f), ".smt2")
 				}
 			}
 		}
@@ -483,4 +485,9 @@ func (eng *Engine) functypeContract(t types.Type) *Contract {
 		return c
 	}
 	return nil
+}
+
+// monActive: the monitor is defined for this VC's reading and its library is part of the VC.
+func (vc *VC) monActive(name string) bool {
+	return vc.eng.monMode[name] == vc.mode.String() && vc.uses[vc.eng.monLib[name]]
 }
